@@ -25,6 +25,41 @@ def to_scenario(sid, hist, rng, typ):
     return {"id": sid, "shards": 1 + sid % 3, "servers": ["A"], "store": "local" if sid % 4 else "k8s", "upstreams": [up], "steps": steps}
 
 
+def round_scenarios(start, rng, n, sweep):
+    """overlapping reports (harness cmd/alloc): a sequential setup brings the schema close to its limit, then rounds of 2-3
+    reports by distinct instances run as scheduler procs.  Schedules: the single-preemption sweep (proc 1 runs k synchronisation
+    operations, proc 2 runs to its end, proc 1 finishes) for every k up to `sweep`, both orders; and seeded random schedules."""
+    out = []
+    insts = ["i1", "i2", "i3"]
+    for i in range(n):
+        typ = "tb" if i % 3 == 0 else "mif"
+        limit = rng.choice([3, 10, 20, 57, 100, 1000])
+        setup = []
+        # grow two or three instances until the limit is (nearly) allocated, then let one calm down a little
+        for k in range(rng.randint(4, 14)):
+            setup.append({"k": "report", "inst": insts[k % rng.choice([2, 3])], "uc": rng.choice(["full", "over", "full", "half"]), "lc": rng.choice(["honest", "over", "over"])})
+        if rng.random() < 0.7:
+            setup.append({"k": "report", "inst": rng.choice(insts[:2]), "uc": rng.choice(["zero", "half"]), "lc": "honest"})
+        rounds = []
+        for r in range(3):
+            k = rng.choice([2, 2, 3])
+            who = rng.sample(insts, k)
+            ops = [{"k": "report", "inst": w, "uc": rng.choice(["full", "over", "full", "half", "zero"]), "lc": rng.choice(["honest", "over", "over"])} for w in who]
+            if rng.random() < 0.25:
+                ops.append({"k": "limit", "max": rng.choice([1, 3, 10, 20, 57, 100])})
+            mode = (i + r) % 4
+            if mode == 0:
+                rounds.append({"ops": ops, "schedule": [], "seed": 0, "free": True})
+            elif mode == 1:
+                rounds.append({"ops": ops, "schedule": [rng.randint(1, k) for _ in range(rng.randint(5, 120))], "seed": rng.randint(1, 10 ** 9), "free": False})
+            else:
+                a, b = (1, 2) if rng.random() < 0.5 else (2, 1)
+                kk = (i * 3 + r) % (sweep + 1)
+                rounds.append({"ops": ops, "schedule": [a] * kk + [b] * 400, "seed": 0, "free": False})
+        out.append({"id": start + i, "type": typ, "limit": limit, "burst": limit * 2 if typ == "tb" else 0, "insts": insts, "setup": setup, "rounds": rounds})
+    return out
+
+
 def main(tier, replay):
     t0 = time.time()
     seed = vlib.seed()
@@ -61,12 +96,33 @@ def main(tier, replay):
                                  [{"k": "hb", "inst": "i1"}, {"k": "hb", "inst": "i2"}] +
                                  [{"k": "report", "up": "u1", "inst": "i%d" % (1 + k % 2), "uc": "full", "lc": "honest"} for k in range(6)] +
                                  [{"k": "hb", "inst": "i3"}, {"k": "report", "up": "u1", "inst": "i3", "uc": "zero", "lc": "honest"}]})
+        # overlapping reports: design model (the implementation's "read the sum under the mutex" verified, the snapshot design refuted)
+        rsc = []
+        if not replay:
+            for variant, expect in (("live", False), ("snapshot", True)):
+                am = vlib.tlc("limiter", "AllocConc", "AllocConc.cfg", workers=8, timeout=900, consts={"Variant": '"%s"' % variant})
+                if bool(am.violation) != expect:
+                    raise Infra("AllocConc.tla variant %s: unexpected result %s" % (variant, am.violated()))
+                states, trans = states + am.distinct, trans + am.generated
+            rsc = round_scenarios(500001, rng, 150 if tier == "quick" else 2500, 60)
+        elif scs[0].get("rounds") is not None:
+            rsc, scs = scs, []
         binp = os.path.join(wd, "limsrv.test")
-        vlib.go_test_build("./limsrv", binp)
-        traces, crashed = vlib.run_test_driver(binp, scs, wd, timeout=1500)
-        sc_by_id = {str(s["id"]): s for s in scs}
-        for sid, tail in crashed.items():
-            v.violation("crash-%s" % sid, {"scenario": sc_by_id[sid], "what": "server process crashed", "stderr_tail": tail})
+        traces, crashed = {}, {}
+        if scs:
+            vlib.go_test_build("./limsrv", binp)
+            traces, crashed = vlib.run_test_driver(binp, scs, wd, timeout=1500)
+        sc_by_id = {str(s["id"]): s for s in scs + rsc}
+        rtraces = []
+        if rsc:
+            abin = os.path.join(wd, "alloc")
+            vlib.go_build("./cmd/alloc", abin, instrument=["pkg/ratelimiter/limiter", "pkg/ratelimiter/store/local"])
+            rtr, rcrashed = vlib.run_test_driver(abin, rsc, wd, timeout=1500, name="rounds")
+            for sid, tail in rcrashed.items():
+                if "HARNESS-INFRA" in tail:
+                    raise Infra("alloc: " + tail[-800:])
+                v.violation("crash-%s" % sid, {"scenario": sc_by_id[sid], "what": "server crashed under overlapping reports", "stderr_tail": tail})
+            rtraces = list(rtr.values())
         # project report events for TLC
         tl = []
         nrep = 0
@@ -77,11 +133,19 @@ def main(tier, replay):
                     continue
                 pre = [{"inst": k, "q": q} for k, q in sorted(e["pre"].get("quotas", {}).items())]
                 post = [{"inst": k, "q": q} for k, q in sorted(e["post"].get("quotas", {}).items())]
-                evs.append({"inst": e["inst"], "limit": e["pre"].get("limit", 0), "blimit": e["pre"].get("blimit", 0), "type": e["type"],
+                evs.append({"k": "report", "inst": e["inst"], "limit": e["pre"].get("limit", 0), "blimit": e["pre"].get("blimit", 0), "type": e["type"],
                             "answered": "err" not in e, "ans": e.get("ans", 0), "bans": e.get("bans", 0), "pre": pre, "post": post,
                             "err": e.get("err", "")})
                 nrep += 1
             tl.append({"id": int(sid), "events": evs})
+        nrounds = 0
+        for t in rtraces:
+            for e in t["events"]:
+                e["pre"], e["post"] = e.get("pre") or [], e.get("post") or []
+                for a in e["reports"]:
+                    a.setdefault("err", "")
+                nrounds += 1
+            tl.append({"id": int(t["id"]), "events": t["events"]})
         tr_p = os.path.join(wd, "alloc-traces.ndjson")
         vlib.write_ndjson(tr_p, tl)
         tv = vlib.tlc("limiter", "TraceAlloc", "TraceAlloc.cfg", workers=8, timeout=1800, consts={"TraceFile": '"%s"' % tr_p})
@@ -92,22 +156,27 @@ def main(tier, replay):
                 rejected[parts[1]] = int(parts[2])
         tl_by_id = {str(t["id"]): t for t in tl}
         for sid, line in sorted(rejected.items()):
-            v.violation("trace-%s" % sid, {"scenario": sc_by_id[sid], "rejected_report": tl_by_id[sid]["events"][line - 1], "report_index": line,
-                                           "what": "answer violates the allocation L0 (range [1,limit] / over-commit / growth while over-committed / burst / record)"})
+            ev = tl_by_id[sid]["events"][line - 1]
+            v.violation("trace-%s" % sid, {"scenario": sc_by_id[sid], "rejected_report": ev, "report_index": line,
+                                           "what": "no order of the round's overlapping reports explains the answers and the recorded quotas under the allocation L0" if ev.get("k") == "round" else
+                                                   "answer violates the allocation L0 (range [1,limit] / over-commit / growth while over-committed / burst / record)"})
         rc = v.finish()
-        distinct = len({vlib.canon([e["limit"], e["pre"], e["inst"], e["ans"]]) for t in tl for e in t["events"]})
+        distinct = len({vlib.canon([e["limit"], e["pre"], e.get("inst"), e.get("ans"), e.get("reports")]) for t in tl for e in t["events"]})
         cov = {"states": states + tv.distinct, "transitions": trans + tv.generated, "traces_validated_against_impl": len(tl) - len(rejected),
                "samples": [tl[0]["events"][:3]] if tl and tl[0]["events"] else [scs[0]],
-               "evaluations": nrep, "distinct_nontrivial": distinct,
+               "evaluations": nrep + nrounds, "distinct_nontrivial": distinct, "overlapping_rounds": nrounds,
+               "rounds_with_limit_change": sum(1 for t in rtraces for e in t["events"] if e["limit"] != e["limit2"]),
                "rule": "one evaluation = one honest report answered by the real server; distinct = distinct (limit, recorded quotas, instance, answer); "
                        "histories from TLC -simulate over Allocation.tla (3 instances, used classes x level classes, limit changes), limits mapped to 1..5000, "
                        "both schema types, 1-3 shards, local and API-backed store",
                "reports_while_overcommitted": sum(1 for t in tl for e in t["events"] if sum(x["q"] for x in e["pre"]) > e["limit"]),
+               "overlap_rule": "rounds of 2-3 overlapping reports (+ a limit change in a quarter of them) on the instrumented server: single-preemption sweep over the first 60 synchronisation operations in both orders, "
+                               "seeded random schedules, free-running goroutines; a round is accepted iff some order of its operations explains answers and records (TraceAlloc.RoundOK)",
                "checker_cmd": "tlc Allocation.tla (StepOK); tlc -simulate AllocationGen.tla; tlc TraceAlloc.tla", "exhaustive": False}
         vlib.write_evidence(PROP, tier, "model_checking", cov, time.time() - t0, len(v.violations),
                             ["reports are honest: an instance reports as current the quota it was last answered",
                              "instances keep heartbeating (reclaiming silent instances is C18)",
-                             "overlapping reports (state read before the per-upstream mutex) are not driven by this check yet",
+                             "overlapping rounds use the in-memory store and a leader elector that simply leads (hook VerifSetLeaderElector); the limit change of a round goes through the API and is not under the scheduler",
                              "float rounding: burst may exceed ceil(a*B/L) by one"])
         return rc
     finally:
